@@ -550,7 +550,19 @@ func runC12Client(t *testing.T, c explore.Case) (res explore.Result) {
 	return
 }
 
+// sync-level tier (schedule explorer, overlay with goroutine-start points), overlay builds only
+var (
+	c12SyncTier   func(t *testing.T, w *explore.Worker, idx *int)
+	c12SyncReplay func(t *testing.T, c explore.Case) explore.Result
+)
+
 func runC12(t *testing.T, c explore.Case) explore.Result {
+	if strings.HasPrefix(c.Unit, "sync;") {
+		if c12SyncReplay == nil {
+			return explore.Result{Viol: "HARNESS: sync tier not built"}
+		}
+		return c12SyncReplay(t, c)
+	}
 	if strings.HasPrefix(c.Unit, "mode=client") {
 		return runC12Client(t, c)
 	}
@@ -583,6 +595,9 @@ func TestC12(t *testing.T) {
 	defer w.Finish()
 	w.SetRule("store side: puts from a generator (immutable values of 6 shapes incl. encodings of exactly 999/1000/1001 bytes; mutable puts over 2 keys x salts of 0/1/64/65 bytes x seq 0..2 x signature in {valid, made for another salt / seq / value / key, 3 single-bit flips, zero}) sent over the wire with a fresh token and directly into bep44.Wrapper with a recording store, as singles and as all ordered pairs (quick: of a core subset; thorough: of all), each step followed by a get for every target and every value hash ever mentioned; reference: accept iff encoded value <= 1000 bytes and (immutable or (salt <= 64 bytes and ed25519 signature verifies)), rejected puts carry an applicable code of 205/206/207 and cause no Store.Put, every served value re-verifies under its target; client side: getput.Get on a mutable and an immutable target against 1-3 simulated nodes, each answering from 14 behaviours (genuine seq 1/2, forged value under a genuine signature, another key, matching key without seq, bad signature, another salt, a genuine signature replayed over another value / seq, immutable genuine / wrong hash, no token, nothing), all assignments x all reply orders (and time-outs)")
 	idx := 0
+	if c12SyncTier != nil {
+		c12SyncTier(t, w, &idx)
+	}
 	do := func(unit string, h []string) {
 		c := explore.Case{Prop: "C12", Unit: unit, H: h}
 		w.Journal(c)
